@@ -15,6 +15,9 @@ from .sstr import (SStr, S, SBool, SInt, Var, PathState, Infeasible, OutsideSubs
 class PDict:
     def __init__(self, items=()): self.items = [list(kv) for kv in items]
     def __repr__(self): return 'D{' + ', '.join(f'{k!r}: {v!r}' for k, v in self.items) + '}'
+class PDefaultDict(PDict):
+    """collections.defaultdict: a missing key read by d[k] is created from the factory"""
+    def __init__(self, factory=None, items=()): PDict.__init__(self, items); self.factory = factory
 class PSet:
     def __init__(self, items=()): self.items = list(items)
     def __repr__(self): return 'Set' + repr(self.items)
@@ -495,6 +498,19 @@ class Interp:
             e2 = [dict()] + env
             self.assign(g.target, item, e2)
             if all(self.is_true(self.eval(c, e2), 'comp-if') for c in g.ifs): self.comp(gens, i + 1, e2, emit)
+    def _live_iter(self, v):
+        """CPython's iteration over a container that the loop body may mutate: a list is read by index against its current length (an element removed
+        at or before the cursor makes the next one be skipped); a dict / set whose size changed raises RuntimeError at the next step"""
+        if type(v) is list:
+            i = 0
+            while i < len(v):
+                yield v[i]; i += 1
+            return
+        items = [k for k, _ in v.items] if isinstance(v, PDict) else list(v.items)
+        n = len(items)
+        for k in items:
+            if len(v.items) != n: self.raise_('RuntimeError', ('dictionary' if isinstance(v, PDict) else 'Set') + ' changed size during iteration')
+            yield k
     def iterate(self, v):
         if isinstance(v, OpenList): raise OutsideSubset('iterate open list')
         if isinstance(v, (list, tuple)): return list(v)
@@ -718,6 +734,8 @@ class Interp:
         if isinstance(o, PDict):
             for k, v in o.items:
                 if self.known_eq(k, i): return v
+            if isinstance(o, PDefaultDict) and o.factory is not None:
+                v = self.call(o.factory, [], {}); o.items.append([i, v]); return v
             self.raise_('KeyError', i if isinstance(i, (str, SStr)) else 'key')
         if isinstance(o, str) and isinstance(i, int):
             if not -len(o) <= i < len(o): self.raise_('IndexError', 'string index out of range')
@@ -799,7 +817,8 @@ class Interp:
             self.assign(s.target, self.binop(s.op, cur, v), env); return
         if t is ast.For:
             broke = False
-            for item in self.iterate(self.eval(s.iter, env)):
+            src = self.eval(s.iter, env)
+            for item in (self._live_iter(src) if type(src) is list or isinstance(src, (PDict, PSet)) else self.iterate(src)):
                 self.assign(s.target, item, env)
                 try: self.exec_block(s.body, env)
                 except BreakSig: broke = True; break
